@@ -4,6 +4,7 @@ from hypothesis import assume, strategies as st
 from vlib import jasm_io
 from vlib.gen_listing import OPERANDS, listings, instruction_body, norm_view, att_view, present_addresses
 from vlib.matcheval import locate as locate_from, record_table
+from vlib.realsrc import real_window_cases, records_of_text
 from vlib.gen_pattern import describe_inst, describe_operand, is_hex_literal_name, lit_ok, random_item, substr
 from vlib.model import stream_record
 from vlib.refmatch import Ref
@@ -17,7 +18,9 @@ RULE = (
     "Cases are (rule, listing) pairs built by describing a window of a generated listing with literal names "
     "(substrings, or whole names) and then applying at most one near-miss mutator (class drawn first); every pair is "
     "evaluated under all 4 settings of mnemonics-full-match/operands-full-match in bool and all-matches mode and compared "
-    "with a direct containment predicate over the instruction list. Non-trivial: the un-mutated description (expected found) "
+    "with a direct containment predicate over the instruction list. One case in eight takes its listing from real objdump output of generated code bytes "
+    "(blobs in three modes, ELF objects incl. linked ones): the rule describes a window of the decoded stream, then one line-level mutation (delete / swap / duplicate "
+    "an instruction line, a name from another instruction, operand names shifted by one). Non-trivial: the un-mutated description (expected found) "
     "or a single-mutation near miss of one; distinct by canonical JSON hash of (rule, listing)."
 )
 ASSUMPTIONS = [
@@ -29,7 +32,7 @@ MUTATORS = [
     "none", "none", "none", "op-rotate", "op-drop-first", "mn-as-op", "op-as-mn", "insert", "delete", "swap",
     "hexword", "later-operand", "next-inst", "too-many-ops", "extra-trailing-op", "edge-window", "unrelated", "hex-h-name", "int-name",
 ]
-FLOORS = {"expect=found": 0.30, "near-miss": 0.30}
+FLOORS = {"expect=found": 0.30, "near-miss": 0.30, "listing=real-objdump": 0.06}
 for _m in set(MUTATORS) - {"none", "unrelated"}:
     FLOORS[f"mut={_m}"] = 0.02
 FLAGS = [(False, False), (True, False), (False, True), (True, True)]
@@ -42,6 +45,11 @@ def budget(tier):
 
 @st.composite
 def cases(draw):
+    if draw(st.integers(0, 7)) == 0:
+        # the listing is what objdump prints for generated code bytes; the rule describes a window of it (vlib/realsrc.py)
+        c = draw(real_window_cases())
+        c["form"] = "real"
+        return c
     mut = draw(st.sampled_from(MUTATORS))
     L = draw(listings(min_len=1, max_len=12))
     full = (draw(st.booleans()), draw(st.booleans()))
@@ -254,11 +262,25 @@ def locate(text, records):
 
 def evaluate(case):
     ev = Eval()
-    L = case["listing"]
     pattern = case["pattern"]
     mut = case["mut"]
-    text = render(att_view(L))
-    NV = norm_view(L)
+    if case.get("form") == "real":
+        text = case["text"]
+        NV = records_of_text(text)
+        ev.tags.append("listing=real-objdump")
+        ev.tags.append("real-src=" + case.get("src", "?"))
+        if case.get("focus"):
+            ev.tags.append("real-window-on-exotic-field")
+        if NV is None:
+            # the stream cannot be produced or decoded: the parser-side properties' business (C08, C10), nothing to judge here
+            ev.tags.append("real-undecodable")
+            return ev
+        mut = "real-" + mut
+        L = NV
+    else:
+        L = case["listing"]
+        text = render(att_view(L))
+        NV = norm_view(L)
     records = [stream_record(a, m, o) for a, m, o in NV]
     ev.subcases = 0
     verdicts = []
@@ -301,7 +323,7 @@ def evaluate(case):
                     break
     # the same question once more in address-only presentation (one flag setting per case, chosen by the case itself): the
     # addresses are those of the first instruction of each window of the leftmost non-overlapping scan - also address 0
-    q = len(case["listing"]) % 4
+    q = len(L) % 4
     mn_full, op_full = FLAGS[q]
     spans = Ref(NV, mn_full, op_full).spans(pattern)
     want, pos = [], 0
@@ -323,9 +345,9 @@ def evaluate(case):
     ev.tags.append("expect=found" if found_default else "expect=notfound")
     if len(set(verdicts)) > 1:
         ev.tags.append("flags-matter")
-    if mut not in ("none", "unrelated"):
+    if mut not in ("none", "unrelated", "real-none"):
         ev.tags.append("near-miss")
-    ev.nontrivial = any(verdicts) or mut not in ("none", "unrelated")
+    ev.nontrivial = any(verdicts) or mut not in ("none", "unrelated", "real-none")
     ev.sample = {"mut": mut, "pattern": pattern, "stream": "".join(records), "expected_by_flags": verdicts}
     return ev
 
